@@ -19,17 +19,27 @@ EXPLANATION = (
     "truthy value only inside cert['public_key'] == public_key and now < fromisoformat(cert['expires']) (strict) for "
     "the element of the kept list of the current iteration (a same-named variable of the factory captured by the "
     "closure is not that element), `now` being obtained by calling now_fn() inside the predicate (per call), now_fn "
-    "defaulting to the timezone-aware current_datetime_with_zone; every other exit returns False; (4) the "
+    "defaulting to the timezone-aware current_datetime_with_zone, the default being substituted exactly when no clock "
+    "was given (every binding of now_fn is the real clock wherever now_fn is None, and the predicate is handed out "
+    "only after such a binding or a not-None test); every other exit returns a falsy constant; (4) the "
     "always-True predicate is returned exactly under `not keys`, every other return is the checking predicate; "
     "(5) time of the question: every return of both upload_permitted() implementations is the result of calling the "
-    "stored verifier during that invocation (constant True only under `verifier is None`), never an attribute or "
-    "other state that outlives the call; the verifier attribute is stored once, in __init__, as the bare constructor "
+    "stored verifier during that invocation, never an attribute or other state that outlives the call; a constant "
+    "answer is justified on every path to it: True only under `verifier is None` or on the yes-edge of a test of the "
+    "verifier's answer taken in this call, a falsy constant / bare return / falling off the end (a refusal) only on "
+    "the no-edge of such a test - so neither an unconfigured verifier nor a configured one that would say yes is "
+    "answered with a refusal; the verifier attribute is stored once, in __init__, as the bare constructor "
     "argument; no functools memoiser decorates upload_permitted, the predicate or the clock (other decorators: "
     "undecided, analysis error); (6) the constructor argument of both server classes is the object returned by "
     "create_grid_manager_verifier (or a zero-argument lambda calling it), not an answer taken from it, and the "
     "factory's now_fn argument at its call sites is absent/None/the real clock. "
     "Undecided: Ed25519 itself, JSON decoding, datetime comparison semantics, clock correctness, callers of "
-    "upload_permitted() keeping its answer (C32 decides the two upload paths).")
+    "upload_permitted() keeping its answer (C32 decides the two upload paths); the argument type checks and "
+    "_validate_public_key in ed25519.verify_signature (defence in depth: the library call they guard is what is "
+    "decided); the failure report bad_cert(key, cert) and the type assertion inside the predicate (reporting / "
+    "crash only); that every kept certificate is *considered* (completeness of the two loops in the factory and of "
+    "the loop in the predicate is decided only as far as a permitting return exists); the values the broker passes "
+    "as keys / certs / public_key to the factory.")
 TECHNIQUE = ("static analysis: CFG must-precede gates on normalised edge facts, same-value agreement of verified and parsed "
              "bytes, reaching-definition provenance of returned values and constructor arguments")
 
@@ -281,6 +291,8 @@ def run(ctx: Context):
                 and "current_datetime_with_zone" in used
             r.require(okc, fn, fn.loc(ds[0] if ds else None), "the clock %s() used by the predicate is not `now_fn` "
                       "defaulting to current_datetime_with_zone (defs: %s)" % (cname, [src(fn, d) for d in ds]))
+            if okc:
+                _clock_never_none(r, fn, chk, cname)
         cur = idx.func(GM + ":current_datetime_with_zone")
         for n in cur.cfg().find(is_return):
             vs = FlowNorm(cur).norm(n, n.ast.value)
@@ -397,35 +409,80 @@ def run(ctx: Context):
                 return bool(fct) and ((fct[0] == "is not" and "None" in (fct[1], fct[2]) and ({fct[1], fct[2]} - {"None"}) <= vattrs)
                                       or (fct[0] == "truth" and fct[1] in vattrs))
 
+            def is_vcall(n, e):
+                e = fnorm.resolve(n, e)
+                while isinstance(e, ast.Call) and call_name(e) == "bool" and len(e.args) == 1 and not e.keywords:
+                    e = fnorm.resolve(n, e.args[0])
+                return isinstance(e, ast.Call) and not e.args and not e.keywords \
+                    and fnorm.norm(n, fnorm.resolve(n, e.func)) in vattrs
+
+            def verdict(n, e, pol):
+                """+1: `e` having truth value `pol` at node n means the verifier, asked during this call, answered yes;
+                -1: it answered no; 0: says nothing about the verifier's answer."""
+                for _ in range(8):
+                    if isinstance(e, ast.UnaryOp) and isinstance(e.op, ast.Not):
+                        e, pol = e.operand, not pol
+                    elif isinstance(e, ast.Name) and fnorm.resolve(n, e) is not e:
+                        e = fnorm.resolve(n, e)
+                    else:
+                        break
+                if isinstance(e, ast.Compare) and len(e.ops) == 1 and isinstance(e.ops[0], (ast.Eq, ast.Is)):
+                    for (c, o) in ((e.left, e.comparators[0]), (e.comparators[0], e.left)):
+                        if isinstance(c, ast.Constant) and isinstance(c.value, bool) and is_vcall(n, o):
+                            # `== False` / `is False` being untrue does not make the answer a yes for `is`; only the
+                            # matching polarity is used
+                            if pol:
+                                return 1 if c.value else -1
+                            return 0
+                    return 0
+                if is_vcall(n, e):
+                    return 1 if pol else -1
+                return 0
+
+            def edge_verdict(x, lab):
+                if x.kind != "test" or not isinstance(lab, tuple) or x.ast is None:
+                    return 0
+                return verdict(x, x.ast, lab[0] == "T")
+
             def unconfigured(x, lab):
                 return unconf_fact(fnorm.edge_fact(x, lab))
 
-            def fresh(n, e, known):
+            def yes_edge(x, lab):
+                return unconf_fact(fnorm.edge_fact(x, lab)) or edge_verdict(x, lab) > 0
+
+            def no_edge(x, lab):
+                return edge_verdict(x, lab) < 0
+
+            def fresh(n, e, yes, no):
                 """None when the value of `e` at node n is decided during this call, else the offending sub-expression.
-                `known`: it is established that no verifier is configured."""
+                `yes`: it is established that no verifier is configured, or that the verifier asked during this call
+                answered yes (a constant True is then the right answer); `no`: the verifier asked during this call
+                answered no (a constant falsy answer is then the right one)."""
                 e = fnorm.resolve(n, e)
                 if isinstance(e, ast.Constant):
-                    return None if (not e.value or (e.value is True and known)) else e
+                    if not e.value:
+                        return None if no else e
+                    return None if (e.value is True and yes) else e
                 if isinstance(e, ast.Call) and call_name(e) == "bool" and len(e.args) == 1 and not e.keywords:
-                    return fresh(n, e.args[0], known)
+                    return fresh(n, e.args[0], yes, no)
                 if isinstance(e, ast.Call) and not e.args and not e.keywords \
                         and fnorm.norm(n, fnorm.resolve(n, e.func)) in vattrs:
                     return None
                 if isinstance(e, (ast.Compare, ast.UnaryOp)):
                     nm = fnorm.at(n)
                     if unconf_fact(nm.cmp(e, True)):
-                        return None          # true only when no verifier is configured
-                    if conf_fact(nm.cmp(e, True)):
-                        return e if not known else None
+                        # true exactly when no verifier is configured: as the whole answer it refuses every server
+                        # of a configured verifier without asking it
+                        return None if (yes or no) else e
                     return e
                 if isinstance(e, ast.BoolOp) and isinstance(e.op, ast.Or):
                     nm = fnorm.at(n)
-                    k = known
+                    k = yes
                     for o in e.values:
                         if isinstance(o, (ast.Compare, ast.UnaryOp)) and unconf_fact(nm.cmp(o, True)):
                             k = False            # the operands after it are evaluated only when one is configured
                             continue
-                        bad = fresh(n, o, k)
+                        bad = fresh(n, o, k, True)      # a falsy operand of `or` leaves the answer to the others
                         if bad is not None:
                             return bad
                     return None
@@ -433,36 +490,73 @@ def run(ctx: Context):
                     nm = fnorm.at(n)
                     for o in e.values:
                         if isinstance(o, (ast.Compare, ast.UnaryOp, ast.Name, ast.Attribute)) and conf_fact(nm.cmp(o, True)):
+                            if not (yes or no):
+                                return o         # `verifier is not None and ...` answers no when none is configured
                             continue
-                        bad = fresh(n, o, known)
+                        bad = fresh(n, o, True, no)     # a True operand of `and` leaves the answer to the others
                         if bad is not None:
                             return bad
                     return None
                 if isinstance(e, ast.IfExp):
                     nm = fnorm.at(n)
-                    t = nm.cmp(e.test, True)
-                    kb = True if unconf_fact(t) else known
-                    ko = True if conf_fact(t) else known
-                    return fresh(n, e.body, kb) or fresh(n, e.orelse, ko)
+                    tt, tf = nm.cmp(e.test, True), nm.cmp(e.test, False)
+                    vt, vf = verdict(n, e.test, True), verdict(n, e.test, False)
+                    return fresh(n, e.body, yes or unconf_fact(tt) or vt > 0, no or vt < 0) \
+                        or fresh(n, e.orelse, yes or unconf_fact(tf) or vf > 0, no or vf < 0)
                 return e
-            for n in rets:
-                v = n.ast.value
-                if v is None:
-                    continue
-                gated = not find_path_avoiding(cfg, lambda x, _n=n: x is _n, gate_edge=unconfigured)
-                r.count(len(cfg.nodes))
-                bad = fresh(n, v, gated)
-                if bad is None:
-                    continue
-                what = src(f, bad)
-                if isinstance(bad, ast.Constant):
+
+            def report(n, bad, yes):
+                what = src(f, bad) if bad is not n.ast else "None (bare return / end of the method)"
+                if bad is n.ast or (isinstance(bad, ast.Constant) and not bad.value):
+                    why = "a constant refusal that is not the verifier's answer during this call: %s" % (
+                        "with no verifier configured every server is permitted" if yes else
+                        "a server holding a valid certificate is refused (and with no verifier configured every server is "
+                        "permitted)")
+                elif isinstance(bad, ast.Constant):
                     why = "a constant answer although a verifier may be configured"
                 elif (attr_path(bad) or "").startswith("self."):
                     why = "an attribute that outlives the call: an earlier verdict (or one made at construction time) is " \
                           "given again after the certificate has expired"
+                elif isinstance(bad, (ast.Compare, ast.UnaryOp)) or (attr_path(bad) or "") in vattrs:
+                    why = "whether a verifier is configured, not what the verifier answers during this call"
                 else:
                     why = "not the result of calling %s() during this call" % "/".join(sorted(vattrs))
                 r.violation(f, f.loc(n.ast), "%s answers with %s - %s" % (short(f), what, why))
+            for n in rets:
+                v = n.ast.value
+                only_unconf = not find_path_avoiding(cfg, lambda x, _n=n: x is _n, gate_edge=unconfigured)
+                yes = not find_path_avoiding(cfg, lambda x, _n=n: x is _n, gate_edge=yes_edge)
+                no = not find_path_avoiding(cfg, lambda x, _n=n: x is _n, gate_edge=no_edge)
+                r.count(3 * len(cfg.nodes))
+                if v is None:
+                    if not no:
+                        report(n, n.ast, only_unconf)
+                    continue
+                rv = fnorm.resolve(n, v)
+                if isinstance(rv, ast.Name) and cfg.find(stores(rv.id)):
+                    # a local with several definitions (`permitted = True; if verifier is not None: permitted = verifier()`):
+                    # each definition that can be the one returned is judged with what its paths establish
+                    def tr(node, lab, nxt, st, _nm=rv.id):
+                        d, y, no_ = st
+                        if node.ast is not None and _nm in node_stores(node) and lab != "exc":
+                            d = node.id
+                        return (d, y or bool(yes_edge(node, lab)), no_ or bool(no_edge(node, lab)))
+                    visited, _parent = explore(cfg, (None, False, False), tr)
+                    r.count(len(visited))
+                    bad = None
+                    for (nid, (d, y, no_)) in sorted(visited, key=lambda t: (t[0], str(t[1]))):
+                        if nid != n.id or bad is not None:
+                            continue
+                        val = assign_value(cfg.nodes[d], rv.id) if d is not None else None
+                        bad = rv if val is None else fresh(cfg.nodes[d], val, y, no_)
+                else:
+                    bad = fresh(n, v, yes, no)
+                if bad is not None:
+                    report(n, bad, only_unconf)
+            # leaving the method without a return statement answers None: a refusal
+            for (t, w) in find_path_avoiding(cfg, lambda x: x.kind == "exit", gate_node=is_return, gate_edge=no_edge):
+                r.violation(f, f.loc(), "%s can end without a return statement (answers None, a refusal) on a path where the "
+                            "verifier was not asked or did not answer no (path: %s)" % (short(f), w.brief()), w)
         fn = idx.func(CREATE)
         chk = _checker(fn)
         r.site(chk, None, "predicate not memoised")
@@ -532,6 +626,54 @@ def _checker(fn):
         raise AnchorVanished("create_grid_manager_verifier: expected exactly one nested predicate to be returned, got %s" % [
             c.qual for c in cands])
     return cands[0]
+
+
+def _clock_never_none(r, fn, chk, cname):
+    """The default clock is substituted exactly when the caller gave none: wherever the factory hands out the checking
+    predicate, its clock parameter (None/absent at every call site of the program) has been replaced by the real clock or
+    tested not to be None.  Otherwise every question put to the predicate ends in `None()`."""
+    cfg = fn.cfg()
+    fnorm = FlowNorm(fn)
+    real = "current_datetime_with_zone"
+
+    def is_self(e):
+        return isinstance(e, ast.Name) and e.id == cname
+
+    def not_none(fct):
+        return bool(fct) and ((fct[0] == "is not" and {fct[1], fct[2]} == {"None", cname})
+                              or (fct[0] == "truth" and fct[1] == cname))
+
+    def never_none(nm, e):
+        if isinstance(e, ast.Name) and e.id == real:
+            return True
+        if isinstance(e, ast.IfExp):
+            tt, tf = nm.cmp(e.test, True, 0), nm.cmp(e.test, False, 0)
+            return (never_none(nm, e.body) or (is_self(e.body) and not_none(tt))) \
+                and (never_none(nm, e.orelse) or (is_self(e.orelse) and not_none(tf)))
+        if isinstance(e, ast.BoolOp) and isinstance(e.op, ast.Or):
+            return never_none(nm, e.values[-1]) and all(is_self(o) or never_none(nm, o) for o in e.values[:-1])
+        return False
+    good, bad = set(), set()
+    for n in cfg.find(stores(cname)):
+        val = assign_value(n, cname)
+        if val is not None and never_none(N(fn), val):
+            good.add(n.id)
+        else:
+            bad.add(n.id)
+            r.violation(fn, fn.loc(n.ast), "the clock %s is bound by `%s`, which leaves it None when the caller passed no "
+                        "clock (every caller in the program): the predicate then fails on every question instead of "
+                        "judging expiry against the current time" % (cname, src(fn, n.ast)))
+    outs = [n for n in cfg.find(is_return) if isinstance(fnorm.resolve(n, n.ast.value), ast.Name)
+            and fnorm.resolve(n, n.ast.value).id == chk.name]
+    for n in outs:
+        for (t, w) in find_path_avoiding(cfg, lambda x, _n=n: x is _n, gate_node=lambda x: x.id in good,
+                                         gate_edge=lambda x, lab: not_none(fnorm.edge_fact(x, lab)),
+                                         kill=lambda x: x.id in bad):
+            if bad:
+                continue                 # already reported at the binding
+            r.violation(fn, fn.loc(n.ast), "the checking predicate is handed out on a path where its clock %s may still be "
+                        "None (no default substituted, not tested): every question then fails (path: %s)" % (
+                            cname, w.brief()), w)
 
 
 def _kept_list(fn, chk):
